@@ -1,6 +1,6 @@
 (** C03 — path shape.  Property theorems only; proofs live in Proofs/. *)
 From Coq Require Import List ZArith Bool.
-From TR Require Import Eng.Engine Eng.Parallel Eng.Timed Spec.C03 Spec.C07 Proofs.EngShape Proofs.EngParallel Proofs.EngCorollaries Generated.GoValidate Proofs.GoTieValidate Lib.GoLists Generated.GoClip Proofs.GoTieClip.
+From TR Require Import Eng.Engine Eng.Parallel Eng.Timed Spec.C03 Spec.C07 Proofs.EngShape Proofs.EngParallel Proofs.EngCorollaries Generated.GoValidate Proofs.GoTieValidate Lib.GoLists Generated.GoClip Proofs.GoTieClip Lib.GoLists Generated.GoHops Proofs.GoTieHops.
 Import ListNotations.
 Open Scope Z_scope.
 
@@ -64,4 +64,9 @@ Theorem C03_clipResults_tied first rs r : 0 <= first -> clip first rs = Some r -
   go_common_clipResults first (map enc_slot rs) = map enc_slot r.
 Proof. exact (@go_clipResults_is_clip first rs r). Qed.
 Print Assumptions C03_clipResults_tied.
+
+(** tie kind A, regenerated on every run by tools/goextract/exprs.go: the body of the loop of common.ToHops as it stands in the source (expected TTL = MinTTL + index, mismatch check, the fields copied into the hop, the empty entry), folded over the slots, is the model's [to_hops] *)
+Theorem C03_ToHops_tied ps first : to_hops first ps = go_to_hops first 0 ps.
+Proof. exact (@go_ToHops_from_first ps first). Qed.
+Print Assumptions C03_ToHops_tied.
 
